@@ -46,165 +46,202 @@ def check_model(chk: harness.Check, name: str, text: str) -> None:
     def violation(key: str, cls: str, **detail: Any) -> None:
         chk.violation(key, dict(model=name, cls=cls, text=text, **detail))
 
-    order = [t.name for t in symbol_table.our_types_topologically_sorted]
-    position = {n: i for i, n in enumerate(order)}
-    if sorted(order) != sorted(
-        t.name for t in symbol_table.our_types
-        if not isinstance(t, intermediate.Enumeration)
-    ):
-        violation("topological-order/not-a-permutation-of-our-types", "", order=order)
+    nontrivial_box = [False]
 
-    nontrivial = False
-    for our_type in symbol_table.our_types:
-        cname = str(our_type.name)
-        ref = pm.classes.get(cname)
-        if ref is None:
-            violation("our-type-unknown-to-reference", cname)
-            continue
-        if isinstance(our_type, intermediate.Enumeration):
-            continue
-        chk.count("types_checked")
-        # topological order
-        for base in ref.bases:
-            if base in position and position[base] > position[cname]:
-                violation("topological-order/child-before-parent", cname, base=base, order=order)
+    def inspect(symbol_table: Any, tag: str) -> None:
+        """All hierarchy facts of one symbol table (``tag``: fresh or after a pickle round trip)."""
 
-        if isinstance(our_type, intermediate.ConstrainedPrimitive):
+        def violation(key: str, cls: str, **detail: Any) -> None:  # noqa: F811
+            chk.violation(key + tag, dict(model=name, cls=cls, text=text, **detail))
+
+        nontrivial = False
+        order = [t.name for t in symbol_table.our_types_topologically_sorted]
+        position = {n: i for i, n in enumerate(order)}
+        if sorted(order) != sorted(
+            t.name for t in symbol_table.our_types
+            if not isinstance(t, intermediate.Enumeration)
+        ):
+            violation("topological-order/not-a-permutation-of-our-types", "", order=order)
+
+        for our_type in symbol_table.our_types:
+            cname = str(our_type.name)
+            ref = pm.classes.get(cname)
+            if ref is None:
+                violation("our-type-unknown-to-reference", cname)
+                continue
+            if isinstance(our_type, intermediate.Enumeration):
+                continue
+            chk.count("types_checked")
+            # topological order
+            for base in ref.bases:
+                if base in position and position[base] > position[cname]:
+                    violation("topological-order/child-before-parent", cname, base=base, order=order)
+
+            if isinstance(our_type, intermediate.ConstrainedPrimitive):
+                got = [str(a.name) for a in our_type.ancestors]
+                if dups(got):
+                    violation("constrained-primitive/ancestors/duplicates", cname, got=got)
+                if set(got) != set(pm.ancestors(cname)):
+                    violation("constrained-primitive/ancestors/wrong-set", cname, got=got,
+                              expected=pm.ancestors(cname))
+                got = [str(a.name) for a in our_type.descendants]
+                if dups(got):
+                    violation("constrained-primitive/descendants/duplicates", cname, got=got)
+                if set(got) != set(pm.descendants(cname)):
+                    violation("constrained-primitive/descendants/wrong-set", cname, got=got,
+                              expected=pm.descendants(cname))
+                if our_type.constrainee.value != pm.primitive_of(cname):
+                    violation("constrained-primitive/constrainee", cname,
+                              got=our_type.constrainee.value, expected=pm.primitive_of(cname))
+                got_inv = [(str(i.specified_for.name), i.description) for i in our_type.invariants]
+                exp_inv = [(a, i.description) for a, i in pm.all_invariants(cname)]
+                if collections.Counter(got_inv) != collections.Counter(exp_inv):
+                    violation("constrained-primitive/invariants/wrong-multiset", cname,
+                              got=got_inv, expected=exp_inv)
+                continue
+
+            assert isinstance(our_type, (intermediate.AbstractClass, intermediate.ConcreteClass))
+            exp_anc = pm.ancestors(cname)
+            if len(ref.bases) >= 2 or any(pm.classes[b].bases for b in ref.bases if b in pm.classes):
+                nontrivial = True
+            # abstract/concrete
+            if isinstance(our_type, intermediate.AbstractClass) != ref.abstract:
+                violation("abstractness", cname)
+            # ancestors
             got = [str(a.name) for a in our_type.ancestors]
             if dups(got):
-                violation("constrained-primitive/ancestors/duplicates", cname, got=got)
-            if set(got) != set(pm.ancestors(cname)):
-                violation("constrained-primitive/ancestors/wrong-set", cname, got=got,
-                          expected=pm.ancestors(cname))
+                violation("ancestors/duplicates", cname, got=got, duplicated=dups(got))
+            if set(got) != set(exp_anc):
+                violation("ancestors/wrong-set", cname, got=got, expected=exp_anc)
+            got = [str(a.name) for a in our_type.inheritances]
+            if got != ref.bases:
+                violation("inheritances/differ-from-declared-bases", cname, got=got, expected=ref.bases)
+            # descendants
             got = [str(a.name) for a in our_type.descendants]
             if dups(got):
-                violation("constrained-primitive/descendants/duplicates", cname, got=got)
+                violation("descendants/duplicates", cname, got=got, duplicated=dups(got))
             if set(got) != set(pm.descendants(cname)):
-                violation("constrained-primitive/descendants/wrong-set", cname, got=got,
-                          expected=pm.descendants(cname))
-            if our_type.constrainee.value != pm.primitive_of(cname):
-                violation("constrained-primitive/constrainee", cname,
-                          got=our_type.constrainee.value, expected=pm.primitive_of(cname))
-            got_inv = [(str(i.specified_for.name), i.description) for i in our_type.invariants]
-            exp_inv = [(a, i.description) for a, i in pm.all_invariants(cname)]
-            if collections.Counter(got_inv) != collections.Counter(exp_inv):
-                violation("constrained-primitive/invariants/wrong-multiset", cname,
-                          got=got_inv, expected=exp_inv)
-            continue
+                violation("descendants/wrong-set", cname, got=got, expected=pm.descendants(cname))
+            got = [str(a.name) for a in our_type.concrete_descendants]
+            if dups(got):
+                violation("concrete-descendants/duplicates", cname, got=got, duplicated=dups(got))
+            if set(got) != set(pm.concrete_descendants(cname)):
+                violation("concrete-descendants/wrong-set", cname, got=got,
+                          expected=pm.concrete_descendants(cname))
 
-        assert isinstance(our_type, (intermediate.AbstractClass, intermediate.ConcreteClass))
-        exp_anc = pm.ancestors(cname)
-        if len(ref.bases) >= 2 or any(pm.classes[b].bases for b in ref.bases if b in pm.classes):
-            nontrivial = True
-        # abstract/concrete
-        if isinstance(our_type, intermediate.AbstractClass) != ref.abstract:
-            violation("abstractness", cname)
-        # ancestors
-        got = [str(a.name) for a in our_type.ancestors]
-        if dups(got):
-            violation("ancestors/duplicates", cname, got=got, duplicated=dups(got))
-        if set(got) != set(exp_anc):
-            violation("ancestors/wrong-set", cname, got=got, expected=exp_anc)
-        got = [str(a.name) for a in our_type.inheritances]
-        if got != ref.bases:
-            violation("inheritances/differ-from-declared-bases", cname, got=got, expected=ref.bases)
-        # descendants
-        got = [str(a.name) for a in our_type.descendants]
-        if dups(got):
-            violation("descendants/duplicates", cname, got=got, duplicated=dups(got))
-        if set(got) != set(pm.descendants(cname)):
-            violation("descendants/wrong-set", cname, got=got, expected=pm.descendants(cname))
-        got = [str(a.name) for a in our_type.concrete_descendants]
-        if dups(got):
-            violation("concrete-descendants/duplicates", cname, got=got, duplicated=dups(got))
-        if set(got) != set(pm.concrete_descendants(cname)):
-            violation("concrete-descendants/wrong-set", cname, got=got,
-                      expected=pm.concrete_descendants(cname))
+            # the id-based sets behind is_subclass_of() agree with the lists
+            for attr, members in (
+                ("ancestor_id_set", our_type.ancestors),
+                ("inheritance_id_set", our_type.inheritances),
+                ("descendant_id_set", our_type.descendants),
+            ):
+                ids = getattr(our_type, attr, None)
+                if ids is not None and set(ids) != {id(m) for m in members}:
+                    violation(f"{attr}/differs-from-the-list", cname,
+                              listed=[str(m.name) for m in members], n_ids=len(ids))
+            for ancestor in our_type.ancestors:
+                if not our_type.is_subclass_of(ancestor):
+                    violation("is_subclass_of/false-for-an-ancestor", cname, ancestor=str(ancestor.name))
+            chk.count("id_sets_checked")
 
-        # members: properties, invariants, methods
-        def check_members(kind: str, got_members: List[Tuple[str, str]], expected: List[Tuple[str, str]]):
-            # entries are (declaring class, member key)
-            if collections.Counter(got_members) != collections.Counter(expected):
-                if dups([f"{a}:{b}" for a, b in got_members]):
-                    violation(f"{kind}/duplicates", cname, got=got_members, expected=expected)
-                else:
-                    violation(f"{kind}/wrong-set", cname, got=got_members, expected=expected)
-                return
-            seen_own = False
-            for i, (decl, key) in enumerate(got_members):
-                if decl == cname:
-                    seen_own = True
-                elif seen_own:
-                    violation(f"{kind}/inherited-after-own", cname, got=got_members)
-                    break
-            # an ancestor's members come before its descendant's members
-            first_index: Dict[str, int] = {}
-            last_index: Dict[str, int] = {}
-            for i, (decl, _) in enumerate(got_members):
-                first_index.setdefault(decl, i)
-                last_index[decl] = i
-            for a in first_index:
-                for b in first_index:
-                    if a != b and a in pm.ancestors(b) and last_index[a] > first_index[b]:
-                        violation(f"{kind}/descendant-members-before-ancestor-members", cname,
-                                  got=got_members, ancestor=a, descendant=b)
-                        return
+            # members: properties, invariants, methods
+            def check_members(kind: str, got_members: List[Tuple[str, str]], expected: List[Tuple[str, str]]):
+                # entries are (declaring class, member key)
+                if collections.Counter(got_members) != collections.Counter(expected):
+                    if dups([f"{a}:{b}" for a, b in got_members]):
+                        violation(f"{kind}/duplicates", cname, got=got_members, expected=expected)
+                    else:
+                        violation(f"{kind}/wrong-set", cname, got=got_members, expected=expected)
+                    return
+                seen_own = False
+                for i, (decl, key) in enumerate(got_members):
+                    if decl == cname:
+                        seen_own = True
+                    elif seen_own:
+                        violation(f"{kind}/inherited-after-own", cname, got=got_members)
+                        break
+                # an ancestor's members come before its descendant's members
+                first_index: Dict[str, int] = {}
+                last_index: Dict[str, int] = {}
+                for i, (decl, _) in enumerate(got_members):
+                    first_index.setdefault(decl, i)
+                    last_index[decl] = i
+                for a in first_index:
+                    for b in first_index:
+                        if a != b and a in pm.ancestors(b) and last_index[a] > first_index[b]:
+                            violation(f"{kind}/descendant-members-before-ancestor-members", cname,
+                                      got=got_members, ancestor=a, descendant=b)
+                            return
 
-        check_members(
-            "properties",
-            [(str(p.specified_for.name), str(p.name)) for p in our_type.properties],
-            [(a, p.name) for a, p in pm.all_props(cname)],
-        )
-        check_members(
-            "invariants",
-            [(str(i.specified_for.name), i.description) for i in our_type.invariants],
-            [(a, i.description) for a, i in pm.all_invariants(cname)],
-        )
-        exp_methods = []
-        seen = set()
-        for anc in exp_anc + [cname]:
-            for m in pm.classes[anc].own_methods:
-                if m.name not in seen:
-                    seen.add(m.name)
-                    exp_methods.append((anc, m.name))
-        check_members(
-            "methods",
-            [(str(m.specified_for.name), str(m.name)) for m in our_type.methods],
-            exp_methods,
-        )
+            check_members(
+                "properties",
+                [(str(p.specified_for.name), str(p.name)) for p in our_type.properties],
+                [(a, p.name) for a, p in pm.all_props(cname)],
+            )
+            check_members(
+                "invariants",
+                [(str(i.specified_for.name), i.description) for i in our_type.invariants],
+                [(a, i.description) for a, i in pm.all_invariants(cname)],
+            )
+            exp_methods = []
+            seen = set()
+            for anc in exp_anc + [cname]:
+                for m in pm.classes[anc].own_methods:
+                    if m.name not in seen:
+                        seen.add(m.name)
+                        exp_methods.append((anc, m.name))
+            check_members(
+                "methods",
+                [(str(m.specified_for.name), str(m.name)) for m in our_type.methods],
+                exp_methods,
+            )
 
-        # constructor
-        from aas_core_codegen.intermediate import construction
+            # constructor
+            from aas_core_codegen.intermediate import construction
 
-        inlined = our_type.constructor.inlined_statements
-        not_assign = [type(s).__name__ for s in inlined if not isinstance(s, construction.AssignArgument)]
-        if not_assign:
-            violation("constructor/inlined-statement-is-not-an-assignment", cname, kinds=not_assign)
-        else:
-            assigned = [str(s.name) for s in inlined]
-            prop_names = [p.name for _, p in pm.all_props(cname)]
-            # only judge when the reference sees that every constructor in the chain
-            # assigns its own properties (true for generated and corpus models)
-            counter = collections.Counter(assigned)
-            if any(v > 1 for v in counter.values()):
-                violation("constructor/property-assigned-more-than-once", cname,
-                          assigned=assigned, properties=prop_names)
-            elif set(assigned) != set(prop_names):
-                violation("constructor/assigned-properties-differ", cname,
-                          assigned=assigned, properties=prop_names)
-        chk.count("constructors_checked")
+            inlined = our_type.constructor.inlined_statements
+            not_assign = [type(s).__name__ for s in inlined if not isinstance(s, construction.AssignArgument)]
+            if not_assign:
+                violation("constructor/inlined-statement-is-not-an-assignment", cname, kinds=not_assign)
+            else:
+                assigned = [str(s.name) for s in inlined]
+                prop_names = [p.name for _, p in pm.all_props(cname)]
+                # only judge when the reference sees that every constructor in the chain
+                # assigns its own properties (true for generated and corpus models)
+                counter = collections.Counter(assigned)
+                if any(v > 1 for v in counter.values()):
+                    violation("constructor/property-assigned-more-than-once", cname,
+                              assigned=assigned, properties=prop_names)
+                elif set(assigned) != set(prop_names):
+                    violation("constructor/assigned-properties-differ", cname,
+                              assigned=assigned, properties=prop_names)
+            chk.count("constructors_checked")
 
-        # interface
-        has_interface = our_type.interface is not None
-        expected_interface = ref.abstract or len(pm.descendants(cname)) > 0
-        if has_interface != expected_interface:
-            violation("interface/existence", cname, got=has_interface, expected=expected_interface)
+            # interface
+            has_interface = our_type.interface is not None
+            expected_interface = ref.abstract or len(pm.descendants(cname)) > 0
+            if has_interface != expected_interface:
+                violation("interface/existence", cname, got=has_interface, expected=expected_interface)
 
-        # model type
-        got_mt = bool(our_type.serialization.with_model_type)
-        exp_mt = pm.with_model_type(cname)
-        if got_mt != exp_mt:
-            violation("with-model-type/propagation", cname, got=got_mt, expected=exp_mt)
+            # model type
+            got_mt = bool(our_type.serialization.with_model_type)
+            exp_mt = pm.with_model_type(cname)
+            if got_mt != exp_mt:
+                violation("with-model-type/propagation", cname, got=got_mt, expected=exp_mt)
+        nontrivial_box[0] = nontrivial_box[0] or nontrivial
+
+    inspect(symbol_table, "")
+    # what a cached run works with: the same table after a pickle round trip
+    import pickle
+
+    try:
+        revived = pickle.loads(pickle.dumps(symbol_table))
+    except Exception as err:  # noqa
+        chk.violation("pickle/symbol-table-does-not-round-trip", dict(model=name, text=text, error=repr(err)[:300]))
+    else:
+        chk.count("models_checked_after_pickle_round_trip")
+        inspect(revived, "/after-pickle")
+    nontrivial = nontrivial_box[0]
 
     shape = dag_shape(pm)
     chk.case(
@@ -217,6 +254,96 @@ def check_model(chk: harness.Check, name: str, text: str) -> None:
             },
         } if nontrivial and len(chk.samples) < 4 else None,
     )
+
+
+TARGETED = [
+    (
+        "targeted/bare-serialization-decorator",
+        mmgen.IMPORTS + '''
+@abstract
+@serialization(with_model_type=True)
+class Shape(DBC):
+    name: str
+
+    def __init__(self, name: str) -> None:
+        self.name = name
+
+
+@serialization()
+class Polygon(Shape):
+    corners: int
+
+    def __init__(self, name: str, corners: int) -> None:
+        Shape.__init__(self, name=name)
+        self.corners = corners
+
+
+class Triangle(Polygon):
+    def __init__(self, name: str, corners: int) -> None:
+        Polygon.__init__(self, name=name, corners=corners)
+
+
+@serialization()
+class Circle(Shape):
+    radius: int
+
+    def __init__(self, name: str, radius: int) -> None:
+        Shape.__init__(self, name=name)
+        self.radius = radius
+
+
+class Holder(DBC):
+    some_number: int
+
+    def __init__(self, some_number: int) -> None:
+        self.some_number = some_number
+
+
+__version__ = "dummy"
+__xml_namespace__ = "https://dummy.com"
+''',
+    ),
+    (
+        "targeted/bare-serialization-decorator-under-a-used-class",
+        mmgen.IMPORTS + '''
+@abstract
+@serialization(with_model_type=True)
+class Shape(DBC):
+    name: str
+
+    def __init__(self, name: str) -> None:
+        self.name = name
+
+
+@serialization()
+class Polygon(Shape):
+    corners: int
+
+    def __init__(self, name: str, corners: int) -> None:
+        Shape.__init__(self, name=name)
+        self.corners = corners
+
+
+@serialization()
+class Triangle(Polygon):
+    def __init__(self, name: str, corners: int) -> None:
+        Polygon.__init__(self, name=name, corners=corners)
+
+
+class Holder(DBC):
+    shapes: List[Shape]
+    main_polygon: Optional[Polygon]
+
+    def __init__(self, shapes: List[Shape], main_polygon: Optional[Polygon] = None) -> None:
+        self.shapes = shapes
+        self.main_polygon = main_polygon
+
+
+__version__ = "dummy"
+__xml_namespace__ = "https://dummy.com"
+''',
+    ),
+]
 
 
 def lattice_model(rng) -> str:
@@ -320,6 +447,7 @@ def worker(args) -> Dict[str, Any]:
     budget = chk.wall_budget(120, 900)
     models: List[Tuple[str, str]] = []
     if shard == 0:
+        models += TARGETED
         models += [m for m in corpus.models() if "unexpected" not in m[0]]
     for i in range(shard, n_models, n_shards):
         m = mmgen.generate(chk.rng("model", i), hierarchy_profile(i))
